@@ -79,6 +79,8 @@ def cases(rng, tier):
     for _ in range(2500 if tier == 'thorough' else 60):
         spec = S.gen_transaction(rng, maxfaults=4)
         out.append(S.scenario_case(spec, 'multi-fault'))
+    for _ in range(200 if tier == 'thorough' else 30):
+        out.append(S.scenario_case(S.gen_scripted_windows(rng), 'scripted-windows'))
     out += in_window_cases(rng, 2000 if tier == 'thorough' else 300)
     return out
 
@@ -151,7 +153,8 @@ def single_fault_eval(spec):
 def direct(rng, tier, focus=()):
     big = tier == 'thorough'
     fams = [('transaction', lambda r: S.gen_transaction(r, big=r.random() < 0.15, maxfaults=4), 80000 if big else 2500),
-            ('concurrent', lambda r: S.gen_concurrent(r), 1500 if big else 100)]
+            ('concurrent', lambda r: S.gen_concurrent(r), 1500 if big else 100),
+            ('scripted-windows', lambda r: S.gen_scripted_windows(r), 1500 if big else 150)]
     failures, stats = S.direct_families(rng, fams, S.check_c05, focus)
     for spec in sweep_specs(rng, 'thorough') + long_specs('thorough'):
         tr, fs = S.run_checked(spec, S.check_c05, max_steps=8000)
@@ -161,13 +164,18 @@ def direct(rng, tier, focus=()):
             f['max_nsegs'] = S.max_transfer_segments(tr)
         failures.extend(fs)
     failures.extend(single_fault_failures(rng, 600 if big else 25, stats))
-    failures.extend(S.known_replays('C05', S.check_c05))
     # the canonical single-fault witness of C05-K1
     import core, json
     for e in core.load_findings('C05'):
         if e['id'] == 'C05-K1':
             spec = S.fix_spec(json.loads(json.dumps(e['replay']['failure']['spec'])))
             failures.extend(single_fault_eval(spec))
+    # a single-fault failure is a *known* one only if the model fails on that very scenario in the same way
+    sf = [f for f in failures if f.get('kind') == 'single-fault-not-repaired']
+    for f, ok in zip(sf, S.model_agrees([f['spec'] for f in sf])):
+        f['model_agrees'] = ok
+    stats['single_fault_failures_checked_against_model'] = len(sf)
+    failures.extend(S.known_replays('C05', S.check_c05))
     return failures, stats
 
 
@@ -177,7 +185,7 @@ def classify(f):
         # known: a single fault inside a *segmented* transaction ends in exactly one abort (no response / invalid APDU in this
         # state / segmentation), never in a wrong payload
         if f.get('segmented') and not f.get('garbage') and len(f.get('outcomes', [])) == 1 and f['outcomes'][0][0] == 7 \
-                and f['outcomes'][0][1] in (65, 2):
+                and f['outcomes'][0][1] in (65, 2) and f.get('model_agrees'):
             return 'C05-K1'
         return None
     if k in ('request-payload-differs', 'response-payload-differs', 'segment-not-a-slice', 'window-exceeded', 'indication-without-request') \
